@@ -10,6 +10,11 @@
 //!   `undecided` (counted and listed, never judged, never dropped).
 //! * Every designated column must succeed, every other column must fail and leave the state root
 //!   untouched. Columns the protocol says nothing about are marked `either` in the table.
+//! * Where the authority depends on the history (who proposed / already approved a multisig
+//!   transaction; whether a beneficiary proposal was made by the current owner), the base states
+//!   contain that history (built with real messages) and the table is written for it: wallet X has
+//!   a transaction approved by [A] and one approved by [A, B] (rows `multisig` / `multisig#tx1`),
+//!   base `stale-nominee` has a beneficiary proposal of the previous owner.
 //! * Universal clauses: (a) methods below 2^24 are refused for EVM-contract and non-built-in
 //!   callers on every actor dispatching through `actor_dispatch!`; (b) no completed call may show
 //!   "failed to validate caller"; (c) undefined method numbers are refused for every caller
@@ -75,10 +80,12 @@ pub enum Col {
     PendingOwner,
     /// nominee of a pending (unapproved) beneficiary change of M1
     PendingBeneficiary,
-    /// signer of the multisig X and proposer of its pending transaction 0
+    /// signer of the multisig X and proposer of its pending transactions 0 and 1
     MsigSignerA,
-    /// second signer of X
+    /// second signer of X; approved (did not propose) its pending transaction 1
     MsigSignerB,
+    /// third signer of X; has approved nothing
+    MsigSignerC,
     PaychPayer,
     PaychPayee,
     Verifier,
@@ -102,7 +109,7 @@ pub enum Col {
     Foreign,
 }
 
-pub const COLS: [Col; 33] = [
+pub const COLS: [Col; 34] = [
     Col::System,
     Col::Init,
     Col::Reward,
@@ -123,6 +130,7 @@ pub const COLS: [Col; 33] = [
     Col::PendingBeneficiary,
     Col::MsigSignerA,
     Col::MsigSignerB,
+    Col::MsigSignerC,
     Col::PaychPayer,
     Col::PaychPayee,
     Col::Verifier,
@@ -139,7 +147,7 @@ pub const COLS: [Col; 33] = [
 ];
 
 /// Columns that are key accounts / Ethereum accounts: they send `External` messages.
-pub const ACCOUNT_COLS: [Col; 16] = [
+pub const ACCOUNT_COLS: [Col; 17] = [
     Col::Owner,
     Col::Worker,
     Col::Control,
@@ -148,6 +156,7 @@ pub const ACCOUNT_COLS: [Col; 16] = [
     Col::PendingBeneficiary,
     Col::MsigSignerA,
     Col::MsigSignerB,
+    Col::MsigSignerC,
     Col::PaychPayer,
     Col::PaychPayee,
     Col::Verifier,
@@ -174,8 +183,8 @@ impl Col {
 // Base state
 // =========================================================================================
 
-pub const BASES_QUICK: [&str; 1] = ["rich"];
-pub const BASES_THOROUGH: [&str; 4] = ["rich", "fresh-miner", "fee-debt", "handed-over"];
+pub const BASES_QUICK: [&str; 2] = ["rich", "stale-nominee"];
+pub const BASES_THOROUGH: [&str; 5] = ["rich", "stale-nominee", "fresh-miner", "fee-debt", "handed-over"];
 
 #[derive(Clone)]
 pub struct Cast {
@@ -200,6 +209,11 @@ pub struct Cast {
     pub deal_active: u64,
     /// an open verified allocation (client -> M1, 2 KiB)
     pub allocation: u64,
+    /// the beneficiary proposal (nominee, quota, expiration) the owner of M1 made last
+    pub ben_proposal: (ActorID, TokenAmount, i64),
+    /// that proposal was made by the *previous* owner: ownership changed afterwards and the new
+    /// owner proposed nothing (base `stale-nominee`)
+    pub proposal_stale: bool,
     /// sector layout of M1 (None in the base without sectors)
     pub lay: Option<Layout>,
 }
@@ -387,6 +401,7 @@ pub fn build(vm: &Vm, variant: &str) -> Cast {
     let pben = acct(Col::PendingBeneficiary, 43);
     let sa = acct(Col::MsigSignerA, 44);
     let sb = acct(Col::MsigSignerB, 45);
+    let sc = acct(Col::MsigSignerC, 49);
     let verifier = acct(Col::Verifier, 46);
     let client = acct(Col::Client, 48);
     let verifier2 = vm.new_account(47, &fil(100_000));
@@ -438,20 +453,29 @@ pub fn build(vm: &Vm, variant: &str) -> Cast {
         }
     }
 
-    // ---- multisig X: signers A, B, threshold 2, one pending transaction proposed by A
+    // ---- multisig X: signers A, B, C, threshold 3; two pending transactions proposed by A:
+    //      0 approved by [A], 1 approved by [A, B]
     let msig = exec(
         vm,
         sa,
         *MULTISIG_ACTOR_CODE_ID,
-        RawBytes::serialize(fil_actor_multisig::ConstructorParams { signers: vec![id(sa), id(sb)], num_approvals_threshold: 2, unlock_duration: 0, start_epoch: 0 }).unwrap(),
+        RawBytes::serialize(fil_actor_multisig::ConstructorParams { signers: vec![id(sa), id(sb), id(sc)], num_approvals_threshold: 3, unlock_duration: 0, start_epoch: 0 }).unwrap(),
         &fil(20_000),
         "multisig",
     );
     ids.insert(Col::Multisig, msig);
-    must(
-        ext(vm, sa, &id(msig), &z, fil_actor_multisig::Method::Propose as u64, Some(&fil_actor_multisig::ProposeParams { to: id(stranger), value: atto(1), method: METHOD_SEND, params: RawBytes::default() })),
-        "multisig pending proposal",
+    for k in 0..2 {
+        must(
+            ext(vm, sa, &id(msig), &z, fil_actor_multisig::Method::Propose as u64, Some(&fil_actor_multisig::ProposeParams { to: id(stranger), value: atto(1 + k), method: METHOD_SEND, params: RawBytes::default() })),
+            "multisig pending proposal",
+        );
+    }
+    let r = must(
+        ext(vm, sb, &id(msig), &z, fil_actor_multisig::Method::Approve as u64, Some(&fil_actor_multisig::TxnIDParams { id: fil_actor_multisig::TxnID(1), proposal_hash: vec![] })),
+        "multisig approval of transaction 1 by B",
     );
+    let ar: fil_actor_multisig::ApproveReturn = r.ret.unwrap().deserialize().unwrap();
+    assert!(!ar.applied, "SETUP-FAILED transaction 1 must stay pending");
     ids.insert(Col::RootMsig, VERIFREG_ROOT_ID);
 
     // ---- payment channel P1 (fresh)
@@ -560,7 +584,15 @@ pub fn build(vm: &Vm, variant: &str) -> Cast {
         must(ext(vm, by, &maddr, &z, fm::Method::ChangeOwnerAddress as u64, Some(&fm::ChangeOwnerAddressParams { new_owner: id(to) })), what);
     };
     own(o, nominee, "nominate owner");
-    if variant == "handed-over" {
+    let propose = |by: ActorID| {
+        must(ext(vm, by, &maddr, &z, fm::Method::ChangeBeneficiary as u64, Some(&pending_beneficiary_params(pben, far))), "propose second beneficiary");
+    };
+    let proposal_stale = variant == "stale-nominee";
+    if proposal_stale {
+        // the old owner's proposal is still unapproved when ownership moves on
+        propose(o);
+    }
+    if variant == "handed-over" || proposal_stale {
         // the nominee confirms; the new owner then nominates the old owner back
         own(nominee, nominee, "confirm owner");
         own(nominee, o, "nominate old owner");
@@ -570,11 +602,9 @@ pub fn build(vm: &Vm, variant: &str) -> Cast {
         keys.insert(Col::Owner, kn);
         keys.insert(Col::PendingOwner, ko);
     }
-    let owner_now = ids[&Col::Owner];
-    must(
-        ext(vm, owner_now, &maddr, &z, fm::Method::ChangeBeneficiary as u64, Some(&pending_beneficiary_params(pben, far))),
-        "propose second beneficiary",
-    );
+    if !proposal_stale {
+        propose(ids[&Col::Owner]);
+    }
 
     // ---- fee debt
     if variant == "fee-debt" {
@@ -638,7 +668,7 @@ pub fn build(vm: &Vm, variant: &str) -> Cast {
     }
     vm.flush();
     vm.bump_nonce.set(false);
-    Cast { ids, keys, m1, m2, msig, paych, paych_settled, evm, evm_eth, evm_dead, verifier2, shells, deal_published, deal_active, allocation, lay }
+    Cast { ids, keys, m1, m2, msig, paych, paych_settled, evm, evm_eth, evm_dead, verifier2, shells, deal_published, deal_active, allocation, ben_proposal: (pben, fil(7), far + 7), proposal_stale, lay }
 }
 
 pub fn pending_beneficiary_params(pben: ActorID, far: i64) -> fm::ChangeBeneficiaryParams {
@@ -1108,12 +1138,20 @@ pub fn build_rows(vm: &Vm, c: &Cast) -> Vec<Row> {
         t.actor("multisig", shell("multisig"), true);
         t.only(1, ctor, init_only, &[Init], p(&ConstructorParams { signers: vec![c.a(Stranger)], num_approvals_threshold: 1, unlock_duration: 0, start_epoch: 0 }));
         t.actor("multisig", c.msig, true);
-        t.only(2, "Propose", "signers only", &[MsigSignerA, MsigSignerB], p(&ProposeParams { to: c.a(Stranger), value: atto(2), method: METHOD_SEND, params: RawBytes::default() }));
+        t.only(2, "Propose", "signers only", &[MsigSignerA, MsigSignerB, MsigSignerC], p(&ProposeParams { to: c.a(Stranger), value: atto(2), method: METHOD_SEND, params: RawBytes::default() }));
+        // transaction 0: proposed by A, approved by [A]
         let txn = TxnIDParams { id: TxnID(0), proposal_hash: vec![] };
-        let r = t.only(3, "Approve", "signers only (each signer once)", &[MsigSignerB], p(&txn));
-        // signer A proposed transaction 0: a second approval by the same signer is refused
-        r.either = vec![MsigSignerA];
-        t.only(4, "Cancel", "the proposer of the transaction only", &[MsigSignerA], p(&txn));
+        let fresh_signers = "signers that have not approved the transaction yet";
+        let proposer = "the proposer of the transaction only";
+        t.only(3, "Approve", fresh_signers, &[MsigSignerB, MsigSignerC], p(&txn));
+        t.only(4, "Cancel", proposer, &[MsigSignerA], p(&txn));
+        // transaction 1: proposed by A, approved by [A, B] (threshold 3: still pending). B is a signer
+        // and a party to the transaction, but not its proposer.
+        let txn1 = TxnIDParams { id: TxnID(1), proposal_hash: vec![] };
+        t.actor("multisig#tx1", c.msig, true);
+        t.only(3, "Approve", fresh_signers, &[MsigSignerC], p(&txn1));
+        t.only(4, "Cancel", proposer, &[MsigSignerA], p(&txn1));
+        t.actor("multisig", c.msig, true);
         let wallet = "the wallet itself only (through an approved transaction)";
         t.only(5, "AddSigner", wallet, &[Multisig], p(&AddSignerParams { signer: c.a(Stranger), increase: false }));
         t.only(6, "RemoveSigner", wallet, &[Multisig], p(&RemoveSignerParams { signer: c.a(MsigSignerB), decrease: true }));
@@ -1283,14 +1321,18 @@ fn miner_rows(vm: &Vm, c: &Cast, t: &mut Table) {
     }
     t.any(24, "DisputeWindowedPoSt", p(&fm::DisputeWindowedPoStParams { deadline: lay.dl_prev, post_index: 0 }));
     t.only(28, "PreCommitSectorBatch2", owc, &OWC, p(&fm::PreCommitSectorBatchParams2 { sectors: vec![precommit_info(m, 21, now, now + 31 * 2880 + 200)] }));
-    // the pending proposal as recorded: the owner may re-propose it, the active beneficiary and
-    // the nominee may approve it
-    let cb = match &info.pending_beneficiary_term {
-        Some(pt) => fm::ChangeBeneficiaryParams { new_beneficiary: pt.new_beneficiary, new_quota: pt.new_quota.clone(), new_expiration: pt.new_expiration },
-        None => fm::ChangeBeneficiaryParams { new_beneficiary: c.a(PendingBeneficiary), new_quota: fil(7), new_expiration: now + 1000 },
-    };
+    // the owner's last proposal: the owner may re-propose it; the active beneficiary and the
+    // nominee may approve it while it is pending. A proposal lapses when the miner changes owner:
+    // in the base where the proposal was made by the previous owner only the (new) owner is
+    // designated, the stale nominee and the beneficiary are not.
+    let cb = fm::ChangeBeneficiaryParams { new_beneficiary: id(c.ben_proposal.0), new_quota: c.ben_proposal.1.clone(), new_expiration: c.ben_proposal.2 };
+    let _ = &info;
     for (n, name) in [(30, "ChangeBeneficiary"), (M::ChangeBeneficiaryExported as u64, "ChangeBeneficiaryExported")] {
-        t.only(n, name, "owner (proposes), or the active beneficiary / the nominee (approve the pending proposal)", &[Owner, Beneficiary, PendingBeneficiary], p(&cb));
+        if c.proposal_stale {
+            t.only(n, name, "owner only (the proposal of the previous owner lapsed with the owner change: nothing is pending that the beneficiary or the former nominee could approve)", &[Owner], p(&cb));
+        } else {
+            t.only(n, name, "owner (proposes), or the active beneficiary / the nominee (approve the pending proposal)", &[Owner, Beneficiary, PendingBeneficiary], p(&cb));
+        }
     }
     for (n, name) in [(31, "GetBeneficiary"), (M::GetBeneficiaryExported as u64, "GetBeneficiaryExported")] {
         t.any(n, name, none());
@@ -1686,8 +1728,9 @@ pub fn run(tier: &str) -> ! {
                 all_viol.push((b.to_string(), r.clone(), *col, m.clone()));
             }
         }
-        if *b == "rich" {
-            for key in ["miner:3", "market:6", "power:6", "multisig:5", "evm:6", "account:16777216"] {
+        if *b == "rich" || *b == "stale-nominee" {
+            let keys: &[&str] = if *b == "rich" { &["miner:3", "market:6", "power:6", "multisig:5", "multisig#tx1:4", "evm:6", "account:16777216"] } else { &["miner:30"] };
+            for key in keys.iter().copied() {
                 if let Some(r) = rows.iter().find(|r| format!("{}:{}", r.actor, r.method) == key) {
                     samples.push(json!({
                         "base": b, "actor": r.actor, "method": r.method, "name": r.name, "authority": r.rule, "positive_control": r.control,
@@ -1757,7 +1800,7 @@ pub fn run(tier: &str) -> ! {
         "policy: SMALL (4 deadlines x 6 epochs, 2 KiB sectors) with the mainnet maximum sector lifetime, so that pre-commits are possible".into(),
         "actor callers are impersonated at the API seam (MsgKind::Impersonated), accounts send External messages without nonce bump so that a rejected message leads back to the same root".into(),
         "constructor rows run against unconstructed shells (code CID installed, empty state) – the state Init.Exec / genesis creates right before calling the constructor; the foreign-code caller is installed the same way".into(),
-        "the authority table is hand-written from the protocol's access rules; cells it marks 'either' (burnt-funds as an account origin, a multisig signer approving twice) are executed but not judged; rows whose positive control fails in a base state are undecided, listed and not judged".into(),
+        "the authority table is hand-written from the protocol's access rules; cells it marks 'either' (burnt-funds as an account origin, the system actor as origin of an actor creation) are executed but not judged; rows whose positive control fails in a base state are undecided, listed and not judged".into(),
     ];
     run.finish()
 }
